@@ -1,10 +1,13 @@
 import CifModel.Lemmas.WriterTotal
+import CifModel.Lemmas.WriterLines
+import CifModel.Model.Parser
+import CifModel.Props.C01parse
 /-
   Property C02 — whole documents.  (Separate from Props/C02.lean only because these theorems are proved from lemmas that
   themselves use the value-level theorems of Props/C02.lean.)
 -/
 namespace CifModel
-open Model.Writer Lemmas.WriterTotal
+open Model.Writer Lemmas.WriterTotal Lemmas.WriterLines
 
 /-- **C02_total.**  `cif_write` in CIF 2.0 mode, for every walk order (`WCif`): on every writable CIF — every loop holds a
     packet; every scalar data name has at least two units and at most 2048 characters; every number has a non-empty text
@@ -32,10 +35,177 @@ theorem C02_total_no_tables (cif : WCif) (hok : containersOk cif) (hnt : ¬ cont
   · exact h
   · exact absurd hw hnt
 
+/-- **C02_line_bound** (whole documents, both output versions, every walk order).  Whenever `cif_write` succeeds on a CIF
+    whose block / frame codes leave room for `data_` / `save_`, whose data names fit a line, whose strings hold neither NUL
+    nor CR and whose number texts are one line of at most 2048 units (`containersL`; the last condition is the open finding
+    F-number-overlong), no line of the output is longer than 2048 code units — hence 2048 characters — and the output begins
+    with the version comment.  Proved through the column-tracking invariant `LineOk`: `last_column` never underestimates the
+    true column, every wrap decision is therefore safe, and every line break resets both. -/
+theorem C02_line_bound (version : Nat) (cif : WCif) (out : Str) (h : containersL cif)
+    (hw : writeCif version cif = .ok out) :
+    (∀ l ∈ splitLines out, l.length ≤ LINE) ∧ (if version = 1 then MAGIC11 else MAGIC20) <+: out := by
+  unfold writeCif at hw
+  simp only at hw
+  generalize hc0 : ({ version := if version = 1 then 1 else 0 } : Ctx) = c0 at hw
+  have hcol : c0.lastColumn = 0 := by rw [← hc0]
+  have hmagic : (if c0.isCif1 then MAGIC11 else MAGIC20) = (if version = 1 then MAGIC11 else MAGIC20) := by
+    rw [← hc0]; by_cases hv : version = 1 <;> simp [hv, Ctx.isCif1]
+  rw [hmagic] at hw
+  -- the invariant for the whole run
+  have L : LineOk c0 (andThen (.ok ((if version = 1 then MAGIC11 else MAGIC20), c0)) fun c1 =>
+      andThen (writeContainers cif c1) fun c2 => .ok (writeNewline c2)) := by
+    apply lineOk_andThen_ok
+    · apply lineOk_of_track c0 _ _ (by rw [hcol]; exact Nat.zero_le _)
+      intro _ k hk
+      have hk0 : k = 0 := by omega
+      subst hk0
+      by_cases hv : version = 1
+      · simp only [hv, ↓reduceIte]; rw [hcol]; decide
+      · simp only [hv, ↓reduceIte]; rw [hcol]; decide
+    · apply lineOk_andThen (lineOk_containers cif c0 h)
+      intro c2; exact lineOk_newline c2
+  cases hr : (andThen (.ok ((if version = 1 then MAGIC11 else MAGIC20), c0)) fun c1 =>
+      andThen (writeContainers cif c1) fun c2 => (.ok (writeNewline c2) : W)) with
+  | error e => simp [hr] at hw
+  | ok p =>
+    obtain ⟨o, c'⟩ := p
+    simp only [hr, Except.ok.injEq] at hw
+    subst hw
+    obtain ⟨_, hfit⟩ := L (by rw [hcol]; exact Nat.zero_le _) o c' hr
+    refine ⟨all_lines_of_fitsU o (hfit 0 (Nat.zero_le _)).1, ?_⟩
+    -- the output starts with the version comment
+    unfold andThen at hr
+    simp only at hr
+    split at hr
+    · cases hr
+    · rename_i o2 c2 _
+      simp only [Except.ok.injEq, Prod.mk.injEq] at hr
+      rw [← hr.1]
+      exact List.prefix_append _ _
+
+/-! ### through the parser's value production (model of group gJ) -/
+
+/-- a string the analysis recommends whitespace-delimited is turned back into an UNQUOTED string by the parser's
+    coercion of whitespace-delimited tokens (`cif_value_set_quoted` / `try_quoted`) -/
+theorem C02_bare_value (dia : Dialect) (s : Str) (unq tri : Bool) (h0 : (0 : CU) ∉ s)
+    (hrec : Model.recommend s unq tri LINE = .none) : Model.Parser.bareValue dia s = some (.chr false s) := by
+  obtain ⟨hnd, hnr, hne, _, h63, h46, hn, _⟩ := (C18_delim_admissible s unq tri LINE h0).1 hrec
+  obtain ⟨hno, _, _⟩ := Lemmas.WriterLex.one_line s unq tri LINE hn
+  have hc : Model.Parser.cstr s = s := C01_cstr_id s (fun c hc e => h0 (e ▸ hc))
+  have hres : Model.isReserved s = false := by
+    cases hh : Model.isReserved s
+    · rfl
+    · exact absurd ((C18_reserved_iff s h0).mp hh) hnr
+  have hnd' : Model.noDisallowed s = true := by
+    unfold Model.noDisallowed
+    rw [List.all_eq_true]
+    intro x hx
+    have a := hnd x hx
+    have b := hno x hx
+    simp [a.1, a.2.1, a.2.2.1, a.2.2.2.1, a.2.2.2.2.1, a.2.2.2.2.2, b.1, b.2]
+  unfold Model.Parser.bareValue
+  simp only [h63, h46, ↓reduceIte, hc, Model.setQuoted, Bool.false_eq_true, Bool.true_eq_false, or_self, hne, hres, hnd']
+
+open Spec.Lexical Model.Lexer Model.Parser in
+/-- **C02_parse_value_roundtrip** — the value level of C02_roundtrip, through the parser's own value production
+    (`parse_value` of parser.c, model of group gJ, on top of the lexer of group gD): what `write_char` writes for the string
+    `s` with quoted flag `q` is parsed back — behind any admissible whitespace, followed by whitespace / end / closing bracket,
+    whatever the callback policy, with NO report — into a character value with exactly the text `s`, quoted unless it was
+    written whitespace-delimited, which happens only for unquoted values; exactly the value is consumed.
+    Both dialects (CIF 1.1: line unfolding and prefix removal enabled, as C13 prescribes). -/
+theorem C02_parse_value_roundtrip (c : Ctx) (s : Str) (q : Bool) (out : Str) (c' : Ctx)
+    (hok : okUnits (Lemmas.WriterLex.diaOf c) none s = true) (hcol : c.lastColumn ≤ LINE)
+    (h : writeChar c s q true = .ok (out, c'))
+    (o : Opts) (hdia : o.dia = Lemmas.WriterLex.diaOf c) (hunf : o.unfold = true) (hprem : o.prem = true)
+    (w0 : List WsAtom) (ctx : Str) (line col : Nat) (lt : TokType) (pol : Policy) (w : Model.Parser.W) (fuel : Nat)
+    (hw0 : ∀ a ∈ w0, a.ok (Lemmas.WriterLex.diaOf c) = true)
+    (hfirst : afterWsOf lt = true ∨ ∀ b rest, w0 ≠ WsAtom.comment b :: rest)
+    (hws : (afterWsOf lt || !w0.isEmpty) = true)
+    (hfitw : linesFit col (renderWs w0) = true)
+    (hcolw : (posAfter line col (renderWs w0)).2 ≤ c.lastColumn)
+    (hctx : followOk (Lemmas.WriterLex.diaOf c) ctx = true) :
+    ∃ (q' : Bool) (ps' : PS),
+      parseValue o (fuel + 1) ⟨⟨renderWs w0 ++ (out ++ ctx), line, col, lt⟩, none⟩ pol w = .ok (.chr q' s, ps') w
+      ∧ ps'.tok = none ∧ ps'.scan.rest = ctx
+      ∧ (q' = true ∨ (q' = false ∧ q = false)) := by
+  have h0 := Lemmas.WriterLex.okUnits_noNUL _ s hok
+  have hcs : cstr s = s := C01_cstr_id s (fun x hx e => h0 (e ▸ hx))
+  obtain ⟨p, s', L, C, hn, hs1, hs2, hb⟩ := C02_value_roundtrip c s q out c' hok hcol h w0 ctx line col lt pol w.log
+    hw0 hfirst hws hfitw hcolw hctx
+  have hnt : nextTok o ⟨⟨renderWs w0 ++ (out ++ ctx), line, col, lt⟩, none⟩ pol w
+      = .ok (⟨p.tokType, s', L, C⟩, ⟨⟨ctx, L, C, p.tokType⟩, some ⟨p.tokType, s', L, C⟩⟩) w := by
+    simp only [nextTok, bind, P.bind, liftL, hdia, hn, pure, P.pure]
+  cases p with
+  | text =>
+    refine ⟨true, ⟨⟨ctx, L, C, .tvalue⟩, none⟩, ?_, rfl, rfl, Or.inl rfl⟩
+    simp only [parseValue, bind, P.bind, hnt, Presentation.tokType, hunf, hprem, hs2 rfl, hcs, pure, P.pure, consume]
+  | bare =>
+    have e := hs1 (by intro e; cases e)
+    subst e
+    obtain ⟨hq, _, hrec⟩ := hb rfl
+    refine ⟨false, ⟨⟨ctx, L, C, .value⟩, none⟩, ?_, rfl, rfl, Or.inr ⟨rfl, hq⟩⟩
+    have hbv := C02_bare_value o.dia s' _ _ h0 hrec
+    simp only [parseValue, bind, P.bind, hnt, Presentation.tokType, hbv, pure, P.pure, consume]
+  | squote =>
+    have e := hs1 (by intro e; cases e); subst e
+    refine ⟨true, ⟨⟨ctx, L, C, .qvalue⟩, none⟩, ?_, rfl, rfl, Or.inl rfl⟩
+    simp only [parseValue, bind, P.bind, hnt, Presentation.tokType, hcs, pure, P.pure, consume]
+  | dquote =>
+    have e := hs1 (by intro e; cases e); subst e
+    refine ⟨true, ⟨⟨ctx, L, C, .qvalue⟩, none⟩, ?_, rfl, rfl, Or.inl rfl⟩
+    simp only [parseValue, bind, P.bind, hnt, Presentation.tokType, hcs, pure, P.pure, consume]
+  | tsquote =>
+    have e := hs1 (by intro e; cases e); subst e
+    refine ⟨true, ⟨⟨ctx, L, C, .qvalue⟩, none⟩, ?_, rfl, rfl, Or.inl rfl⟩
+    simp only [parseValue, bind, P.bind, hnt, Presentation.tokType, hcs, pure, P.pure, consume]
+  | tdquote =>
+    have e := hs1 (by intro e; cases e); subst e
+    refine ⟨true, ⟨⟨ctx, L, C, .qvalue⟩, none⟩, ?_, rfl, rfl, Or.inl rfl⟩
+    simp only [parseValue, bind, P.bind, hnt, Presentation.tokType, hcs, pure, P.pure, consume]
+
+/-- FULL (whole documents, against the integrated parser model of group gJ): whatever `cif_write` emits in CIF 2.0 mode
+    for the walk `wc` of a CIF is parsed — nested frames allowed, accept-all policy (hence, by `C01_error_free_policy_independent`,
+    any policy) — with return code 0, without a single report, into a CIF `equiv`alent to the original.
+    PROVED OF IT: the value level through the parser's own value production (`C02_parse_value_roundtrip`: every string value,
+    every presentation, both dialects), the line bound (`C02_line_bound`), totality (`C02_total`); the composition over the
+    container / loop / list / table productions is not proved (group gJ's `C01_structure` is open as well) — instances
+    are kernel-evaluated below and the statement is checked per generated case by the correspondence oracle. -/
+def C02_roundtrip_doc_full (equiv : WCif → Cif → Prop) : Prop :=
+  ∀ (wc : WCif) (out : Str) (o : Model.Parser.Opts), o.dia = .cif2 → o.maxFrameDepth < 0 → o.unfold = true → o.prem = true →
+    o.notUtf8 = false → o.store = true →
+    writeCif 0 wc = .ok out →
+    (Model.Parser.parse o Model.Lexer.acceptAll [] out).rc = 0 ∧ (Model.Parser.parse o Model.Lexer.acceptAll [] out).log = [] ∧
+    equiv wc (Model.Parser.parse o Model.Lexer.acceptAll [] out).cif
+
+namespace C02Doc
+/-- what was written, or nothing -/
+def written (r : Except Code Str) : Str := match r with | .ok o => o | .error _ => []
+/-- one block `b` with the one scalar item `_x` -/
+def oneItem (v : V) : WCif := [WContainer.mk (a!"b") [] [{ category := some [], header := [a!"_x"], packets := [[(a!"_x", v)]] }]]
+end C02Doc
+
+set_option maxRecDepth 1000000 in
+/-- kernel-evaluated instance: a list holding a quoted string, a table whose value needs the text-prefix protocol
+    (`x<LF>;y`), an unquoted string, a number-like unquoted string, `?` and `.` — written, then parsed back by gJ's parser -/
+example :
+    (Model.Parser.parse C01parse.opts2 Model.Lexer.acceptAll []
+      (C02Doc.written (writeCif 0 (C02Doc.oneItem (.lst [.chr true (a!"a b"), .tbl [(a!"k", a!"k", .chr true (a!"x\n;y"))],
+        .chr false (a!"xyz"), .unk, .na]))))).log = [] ∧
+    (C01parse.theValue (Model.Parser.parse C01parse.opts2 Model.Lexer.acceptAll []
+      (C02Doc.written (writeCif 0 (C02Doc.oneItem (.lst [.chr true (a!"a b"), .tbl [(a!"k", a!"k", .chr true (a!"x\n;y"))],
+        .chr false (a!"xyz"), .unk, .na]))))).cif)
+      == some (.lst [.chr true (a!"a b"), .tbl [(a!"k", a!"k", .chr true (a!"x\n;y"))], .chr false (a!"xyz"), .unk, .na]) := by
+  decide +kernel
+
 -- non-vacuity: a writable CIF with a scalar item, a loop, a list and a table
 example : containersOk [WContainer.mk (a!"b") []
     [{ category := some [], header := [a!"_x"], packets := [[(a!"_x", V.lst [V.chr true (a!"a b"), V.tbl [(a!"k", a!"k", V.unk)]])]] },
      { category := none, header := [a!"_y"], packets := [[(a!"_y", V.numb false (a!"12") false [] none 0)]] }]] := by
   simp [containersOk, containerOk, loopOk, itemsOk, isScalars, valueOk, elemsOk, entriesOk, nameOk, countChar32, LINE]
+
+example : containersL [WContainer.mk (a!"b") []
+    [{ category := some [], header := [a!"_x"], packets := [[(a!"_x", V.lst [V.chr true (a!"a b"), V.tbl [(a!"k", a!"k", V.unk)]])]] },
+     { category := none, header := [a!"_y"], packets := [[(a!"_y", V.numb false (a!"12") false [] none 0)]] }]] := by
+  simp [containersL, containerL, codeL, loopL, headerL, itemsL, valueL, elemsL, entriesL, nameL, strOk, numbOk, countChar32, LINE]
 
 end CifModel
